@@ -11,7 +11,6 @@ import (
 	"time"
 
 	"github.com/vipnode/vipnode/v2/ethnode"
-	"github.com/vipnode/vipnode/v2/internal/verif/vsched"
 	"github.com/vipnode/vipnode/v2/pool"
 	"github.com/vipnode/vipnode/v2/pool/balance"
 )
@@ -111,34 +110,7 @@ const InvokeWatchdog = 3 * time.Minute
 // controlled scheduler a request that does not return within InvokeWatchdog panics (reported by the
 // callers like any panic of the code under test) instead of hanging the whole check.
 func (c Call) Invoke(w *PoolWorld, ctx context.Context) (res interface{}, err error) {
-	if vsched.Active() {
-		return c.invoke(w, ctx)
-	}
-	type out struct {
-		res interface{}
-		err error
-		pan interface{}
-	}
-	ch := make(chan out, 1)
-	go func() {
-		var o out
-		defer func() {
-			if r := recover(); r != nil {
-				o.pan = r
-			}
-			ch <- o
-		}()
-		o.res, o.err = c.invoke(w, ctx)
-	}()
-	select {
-	case o := <-ch:
-		if o.pan != nil {
-			panic(o.pan)
-		}
-		return o.res, o.err
-	case <-time.After(InvokeWatchdog):
-		panic(fmt.Sprintf("request %s by %s never returned (still blocked after %s)", c.Endpoint, Short(c.ID), InvokeWatchdog))
-	}
+	return Watched(c.Endpoint+" by "+Short(c.ID), func() (interface{}, error) { return c.invoke(w, ctx) })
 }
 
 func (c Call) invoke(w *PoolWorld, ctx context.Context) (res interface{}, err error) {
